@@ -786,6 +786,20 @@ func c06BadMessage(d *db, op simrt.Op) {
 		b = append([]byte{byte((sub & 0xff) % c06NTypes)}, e...)
 	case 4: // a message of type sub&0xff under the byte of type sub>>8
 		b = append([]byte{byte(sub >> 8)}, enc(c06Msg((sub&0xff)%c06NTypes, S[0], r.Bool(0.5)))...)
+	case 6: // a resize instruction for a job nobody runs, one of whose sources names no node; its
+		// cluster status is the current one, so following it changes nothing
+		co := d.cl.coordinator()
+		var members []*pilosa.Node
+		for _, n := range d.cl.nodes {
+			if n.opened && !n.gone {
+				members = append(members, n.node())
+			}
+		}
+		instr := &pilosa.ResizeInstruction{JobID: 777, Node: nd.node(), Coordinator: co.node(),
+			Sources:       []*pilosa.ResizeSource{{Index: S[0], Field: "nosuch", View: "standard", Shard: 0}},
+			NodeStatus:    &pilosa.NodeStatus{Node: co.node(), Schema: &pilosa.Schema{}},
+			ClusterStatus: &pilosa.ClusterStatus{ClusterID: pilosa.VCluster(co.srv).ID, State: pilosa.ClusterStateNormal, Nodes: members}}
+		b = append([]byte{8}, enc(instr)...)
 	default: // well-formed, about things that do not exist
 		m := c06Msg((sub&0xff)%c06NTypes, S[0], r.Bool(0.5))
 		t := byte((sub & 0xff) % c06NTypes)
@@ -807,6 +821,9 @@ func c06BadMessage(d *db, op simrt.Op) {
 		if decodes {
 			harmless = c06Harmless(d, m)
 		}
+	}
+	if variant == 6 {
+		harmless = true // by construction
 	}
 	what := fmt.Sprintf("badmessage(v%d.%d %x via %s to %s decodes=%v harmless=%v)", variant, sub, clipBytes(b), []string{"http", "gossip path"}[path&1], nd.id, decodes, harmless)
 	if decodes && !harmless && !terminal {
@@ -1558,6 +1575,10 @@ func (cg *c06Gen) badMessage(ops []simrt.Op, terminal bool) []simrt.Op {
 		variant = int64(r.Intn(6))
 		sub = int64(r.Intn(c06NTypes))
 		path = int64(r.Intn(2))
+		if cg.hot&c06HotResize != 0 && r.Bool(0.15) {
+			variant, sub = 6, 8
+			break
+		}
 		switch variant {
 		case 1, 2:
 			sub = int64(simrt.Pick(r, r.Intn(c06NTypes), r.Intn(c06NTypes), 17+r.Intn(4), 255))
